@@ -411,6 +411,10 @@ pub fn exec_hostile(c: &HostileCase) -> Result<(), Fail> {
 }
 
 pub fn run(ctx: &Ctx, report: &mut Report) -> EvidenceMeta {
+    ctx.replay_corpus("codec_bytes", report);
+    if ctx.tier == Tier::Thorough {
+        ctx.fuzz_campaign("codec_bytes", 50_000_000, 160, report);
+    }
     ctx.run_part(&CodecPart, report);
     // Foca on the serde codecs at packet sizes that cut a Feed / update list mid-member (C07's sweep)
     let sweep: Vec<crate::props::c07::SweepCase> = {
@@ -433,6 +437,7 @@ pub fn run(ctx: &Ctx, report: &mut Report) -> EvidenceMeta {
 
 pub fn replay(part_name: &str, case: &Value) -> Option<Result<(), Fail>> {
     match part_name {
+        p if p.starts_with("fuzz:") => replay_fuzz(p, case),
         "values" => Some(replay_with(&CodecPart, case)),
         "unlimited-bincode-hostile-bytes" => Some((|| {
             let c: HostileCase = serde_json::from_value(case.clone()).map_err(|e| Fail::new("replay:bad-file", e.to_string()))?;
@@ -443,5 +448,49 @@ pub fn replay(part_name: &str, case: &Value) -> Option<Result<(), Fail>> {
             crate::props::c07::exec_sweep(&c, &mut CaseOut::default())
         })()),
         _ => None,
+    }
+}
+
+// ---------------------------------------------------------------------------------------
+// byte-level entry point for the libFuzzer target
+// ---------------------------------------------------------------------------------------
+
+fn fuzz_one<T: MkId, C: Codec<T>>(c: &mut C, data: &[u8]) -> Result<(), Fail> {
+    for is_header in [true, false] {
+        let mut cur: &[u8] = data;
+        let r = dec::<T, C>(c, is_header, &mut cur);
+        ensure!(cur.len() <= data.len(), "C20:read-past-input", "decoder left {} bytes of a {}-byte input", cur.len(), data.len());
+        if let Ok(v) = r {
+            reencode(c, &v, is_header)?;
+        }
+    }
+    Ok(())
+}
+
+pub fn fuzz_decode(selector: u8, data: &[u8]) -> Result<(), Fail> {
+    let r = catch_unwind(AssertUnwindSafe(|| {
+        let id = selector & 3;
+        macro_rules! with_codec {
+            ($t:ty, $heap:expr) => {
+                match (selector >> 2) % 5 {
+                    0 => fuzz_one::<$t, _>(&mut PostcardCodec, data),
+                    1 => fuzz_one::<$t, _>(&mut BincodeCodec(bincode::config::standard().with_limit::<65536>()), data),
+                    2 => fuzz_one::<$t, _>(&mut BincodeCodec(bincode::config::legacy().with_limit::<65536>()), data),
+                    3 if !$heap => fuzz_one::<$t, _>(&mut BincodeCodec(bincode::config::standard()), data),
+                    4 if !$heap => fuzz_one::<$t, _>(&mut BincodeCodec(bincode::config::legacy()), data),
+                    _ => Ok(()),
+                }
+            };
+        }
+        match id {
+            0 => with_codec!(u64, false),
+            1 => with_codec!((u16, u16), false),
+            2 => with_codec!(SocketAddr, false),
+            _ => with_codec!(SerdeId, true),
+        }
+    }));
+    match r {
+        Ok(r) => r,
+        Err(_) => Err(Fail::new("C20:codec-panicked", format!("bundled codec panicked on {} bytes: {}", data.len(), crate::inst::take_last_panic()))),
     }
 }
